@@ -237,6 +237,17 @@ func checkC09(c *Ctx) {
 	r.Rule("C09/NOBLOCK", "no enforcer rendezvous, channel operation or lock re-acquisition is reachable while a store/mailbox/bucket lock is held")
 	r.Rule("C09/GUARD/file", "file.Store methods call mbox methods only under the bucket lock (write mode if the callee can reach writeIndex or an unlink), released on all exits; VisitMailboxes (both stores) invokes the visitor with no lock held")
 	r.Rule("C09/NIL/el", "every use of mem.Message.el as the argument of list.Remove is dominated by a non-nil test of the same load")
+	// what the size enforcer does to a message must be explainable by the operations issued: its
+	// byte account follows deliveries and removals exactly (decided by C08's enforcer rule);
+	// a drifting account evicts mail that nothing removed
+	{
+		nE := c.borrow(func(c2 *Ctx) {
+			if pm2 := c2.pairing(); pm2.ok && pm2.enforcerLoop != nil {
+				c2.c08Enforcer(pm2)
+			}
+		}, "C08/ENFORCER/shape/", "C09/ENFORCER/account", "the enforcer goroutine's list and byte account are updated consistently on every branch")
+		r.Floor("C09/ENFORCER/account", "borrowed obligations", nE, 1)
+	}
 	pm := c.pairing()
 	if !pm.ok {
 		return
@@ -1339,6 +1350,22 @@ func (c *Ctx) c09File(pm *pairModel) {
 				for _, b := range sects {
 					if a.site != b.site && a.loads && b.wries && eng.Dominates(a.site, b.site) {
 						problems = append(problems, "the index is loaded in the critical section at "+p.InstrPos(a.site)+" and written back in a later one at "+p.InstrPos(b.site)+" (the lock is released in between): two overlapping operations on one mailbox both succeed but one update is lost")
+					}
+				}
+				// … or written back later under a lock this method takes itself, or loaded
+				// earlier under such a lock and written by the gate
+				for _, wr := range writers {
+					if wc, ok := wr.(*ssa.Call); ok && wc != a.site && a.loads && eng.Dominates(a.site, wr) {
+						if _, isGate := gateMode[eng.StaticCallee(wc.Common())]; !isGate {
+							problems = append(problems, "the index is loaded inside "+eng.CalleeName(a.site.Common())+" (which takes and releases the bucket lock itself, "+p.InstrPos(a.site)+") and written back at "+p.InstrPos(wr)+" in a later critical section: two overlapping operations on one mailbox both succeed but one update is lost")
+						}
+					}
+				}
+				for _, ld := range loaders {
+					if lc, ok := ld.(*ssa.Call); ok && lc != a.site && a.wries && eng.Dominates(ld, a.site) {
+						if _, isGate := gateMode[eng.StaticCallee(lc.Common())]; !isGate {
+							problems = append(problems, "the index loaded at "+p.InstrPos(ld)+" is written back inside "+eng.CalleeName(a.site.Common())+" ("+p.InstrPos(a.site)+"), a critical section of its own")
+						}
 					}
 				}
 			}
